@@ -214,4 +214,20 @@ Proof.
   - exact AGD.
   - reflexivity.
 Qed.
+
+(* C10_parents_consistent, full form: the result satisfies every strict rule again (mp4_wf), so a further save starts from
+   the same hypotheses *)
+Theorem save_existing_wf it :
+  mp4_forest_ok ilst_data false [it] 0 (zlen ilst_data) = true -> ilst_clean it = true ->
+  covered atoms -> mp4_entries_in_file f atoms = true -> mp4_wf f' = true.
+Proof.
+  intros Hit Hic Hcov Hent. destruct (existing_view f atoms path Hforest Hpath) as (off & old & [V]).
+  assert (Hc : ilst_clean (v_ilst _ _ _ _ _ V) = true).
+  { unfold mp4_tags_clean in Hclean. rewrite Hpath, (v_path _ _ _ _ _ V) in Hclean. exact Hclean. }
+  destruct (pk_runs f atoms path off old V Hforest Htab Hc ilst_data cb f' final_existing) as (f2 & R1 & R2).
+  destruct V as [moov udta meta ilst T1 T2 M1 M2 U1 U2 A R B Vp Va K1 K2 K3 N1 N2 N3 N4 HS HRg FA FR FB]. cbn in *.
+  exact (existing_result_wf f atoms Hforest Htab moov udta meta ilst T1 T2 M1 M2 U1 U2 A R B off old
+           Va K1 K2 K3 N1 N2 N3 HS FA FR FB Hc _ f2 f' R1 R2 ilst_data (new_pad cb f off old ilst_data) it eq_refl
+           (Z.le_min_l _ _) Hit Hcov Hent Hic).
+Qed.
 End Final.
